@@ -158,6 +158,16 @@ Theorem C14_progress : forall ix0 progs sched, clean ix0 ->
 Proof. intros ix0 progs sched C s. exact (inv_progress s (reach_inv ix0 progs sched C)). Qed.
 Print Assumptions C14_progress.
 
+(* ... and from every reachable state some continuation of the schedule lets every actor finish
+   (each non-retry step decreases a measure): no deadlock, no livelock other than by starvation *)
+Theorem C14_terminates : forall ix0 progs sched, clean ix0 ->
+  exists more, all_finished (reach ix0 progs (sched ++ more)) = true.
+Proof.
+  intros ix0 progs sched C. destruct (inv_terminates _ (reach_inv ix0 progs sched C)) as (more & H).
+  exists more. unfold reach, trun in *. rewrite fold_left_app. exact H.
+Qed.
+Print Assumptions C14_terminates.
+
 (* ---- non-vacuity ---- *)
 
 Definition ix2 : tix := [{| t_tag := 0; t_readers := 0; t_excl := false; t_live := true |};
